@@ -435,4 +435,47 @@ func streamC15gw(env *runEnv) {
 		}
 		g.stop()
 	}
+	// the token handed out with a connection file names the user the file names: the identity's name is split
+	// into user and domain, the file says user, the token's subject says user
+	for ti, name := range []string{"alice@example.com", "bob", "carol@corp@example.com"} {
+		dir := filepath.Join(env.workdir, fmt.Sprintf("c15gw-file-%d", ti))
+		gc := gwConfig{authSet: true, auth: []string{"openid"}, tlsDisable: true, hosts: []string{"10.9.8.7:3389"},
+			providerURL: idp.srv.URL, clientID: idp.clientID, enableUserTok: true, userEncKey: string(encKey),
+			splitDomain: true, userTemplate: "{{ username }}|{{ token }}"}
+		yaml, ev := gc.render("file")
+		g, ok := startGateway(dir, yaml, ev, false)
+		if !ok {
+			panic("C15: gateway did not start: " + g.logs())
+		}
+		b := newBrowser()
+		at := fmt.Sprintf("c15gw-at-%d-%d", env.seed, ti)
+		idp.setToken(at, atBehaviour{kind: "valid", sub: name})
+		idp.setCode("code-"+at, codeBehaviour{kind: "ok", accessToken: at, claims: map[string]interface{}{"preferred_username": name}})
+		b.login(g, "/connect", "code-"+at)
+		resp, body, err := b.get(g.base() + "/connect")
+		verdict := "no-file"
+		if err == nil && resp.StatusCode == 200 {
+			un, _ := rdpField(body, "username")
+			want := strings.SplitN(name, "@", 2)[0]
+			tok := ""
+			if p := strings.SplitN(un, "|", 2); len(p) == 2 && p[0] == want {
+				tok = p[1]
+			}
+			securityMu.Lock()
+			setUserKeys("E", "-")
+			cl, uerr := security.UserInfo(context.Background(), tok)
+			securityMu.Unlock()
+			switch {
+			case uerr != nil:
+				verdict = "token-in-file-does-not-verify"
+			case cl.Subject != want:
+				verdict = fmt.Sprintf("token-subject-%q-file-user-%q", cl.Subject, want)
+			default:
+				verdict = "exact"
+			}
+		}
+		env.count("c15gw.file-token." + strings.SplitN(verdict, "-", 2)[0])
+		env.emit("exact", "user-token-in-the-file-of-"+hx([]byte(name))+"-names-the-user-of-the-file", verdict)
+		g.stop()
+	}
 }
